@@ -133,6 +133,8 @@ def _genfromtxt(L, fname, skip_header=0, names=None, usecols=None, dtype=None, *
     numbers are those written in the file (assumed: the string layer)"""
     files = L.ctx.ghost.setdefault('files', {})
     v = files.get(fname)
+    if isinstance(v, tuple) and v[0] == 'strtable':
+        return _genfromtxt_str(L, v, skip_header, names, usecols, dtype, kw)
     if not (isinstance(v, tuple) and v[0] == 'table'):
         raise Unsupported('genfromtxt of a file without table content')
     from .core import Arr
@@ -140,6 +142,31 @@ def _genfromtxt(L, fname, skip_header=0, names=None, usecols=None, dtype=None, *
     a = Arr((n,), lambda ix: None, {k: c.dtype for k, c in cols.items()}, label='table')
     a.fields = {k: c.snapshot() for k, c in cols.items()}
     return a
+
+
+def _genfromtxt_str(L, v, skip_header, names, usecols, dtype, kw):
+    """numpy.genfromtxt(fname, dtype='str'[, delimiter=..]) of a text table: file content ('strtable', n, w, STRID) - n rows of w
+    fields, field (r, k) is the abstract string STRID(r, k) (an identity: equal strings <-> equal identities).  A one-row file
+    comes back as a vector (numpy squeezes it), any other as an (n, w) array of strings."""
+    from .core import Arr
+    if dtype != 'str' or skip_header or names is not None or usecols is not None or set(kw) - {'delimiter'}:
+        raise Unsupported('genfromtxt of a string table with these options')
+    n, w, STRID = v[1], v[2], v[3]
+    if L.ctx.branch(to_z3(n) == 1):
+        return Arr((w,), lambda ix: STRID(z3.IntVal(0), to_z3(ix[0])), 'str', label='strtable row')
+    return Arr((n, w), lambda ix: STRID(to_z3(ix[0]), to_z3(ix[1])), 'str', label='strtable')
+
+
+@model('numpy.atleast_2d')
+def _atleast_2d(L, a):
+    from .core import Arr
+    a = L.as_arr(a)
+    if a.ndim == 1:
+        base = a
+        return Arr((1, a.shape[0]), lambda ix: base.f((ix[1],)), a.dtype)
+    if a.ndim == 2:
+        return a
+    raise Unsupported('atleast_2d of rank %d' % a.ndim)
 
 
 @model('numpy.atleast_1d')
@@ -185,7 +212,7 @@ def unique_first_occurrence(L, a, axis):
         w = simp(a.shape[1])
         roweq = lambda s, t: z3.And(*[to_real(a.f((s, k))) == to_real(a.f((t, k))) for k in range(w)])
         trig = lambda t: a.f((t, 0))
-    elif a.ndim == 1 and axis is None:
+    elif a.ndim == 1 and axis in (None, 0):
         roweq = lambda s, t: to_real(a.f((s,))) == to_real(a.f((t,)))
         trig = lambda t: a.f((t,))
     else:
@@ -199,10 +226,23 @@ def unique_first_occurrence(L, a, axis):
     ctx.fact(z3.And(U >= 0, U <= n))
     ctx.fact(z3.ForAll([j], z3.Implies(z3.And(0 <= j, j < U), z3.And(0 <= FO(j), FO(j) < n)), patterns=[FO(j)]))
     ctx.fact(z3.ForAll([j, j2], z3.Implies(z3.And(0 <= j, j < j2, j2 < U), FO(j) < FO(j2)), patterns=[z3.MultiPattern(FO(j), FO(j2))]))
+    def mentions(e, v):
+        todo, seen = [e], set()
+        while todo:
+            x = todo.pop()
+            if x.get_id() in seen:
+                continue
+            seen.add(x.get_id())
+            if x.eq(v):
+                return True
+            todo.extend(x.children())
+        return False
+    tt = to_z3(trig(t))
+    row_trigger = mentions(tt, t) and not z3.is_var(tt) and tt.num_args() > 0      # a one-row table has no row index in its terms
     ctx.fact(z3.ForAll([j, t], z3.Implies(z3.And(0 <= j, j < U, 0 <= t, t < FO(j)), z3.Not(roweq(t, FO(j)))),
-                       patterns=[z3.MultiPattern(FO(j), to_z3(trig(t)))]))
+                       patterns=[z3.MultiPattern(FO(j), tt)] if row_trigger else []))
     ctx.fact(z3.ForAll([t], z3.Implies(z3.And(0 <= t, t < n), z3.And(0 <= J(t), J(t) < U, FO(J(t)) <= t, roweq(FO(J(t)), t))),
-                       patterns=[J(t), to_z3(trig(t))]))
+                       patterns=[J(t), tt] if row_trigger else [J(t)]))
     fo = Arr((U,), lambda ix: FO(to_z3(ix[0])), 'int64', label='first_occ')
     ctx.fact(z3.ForAll([j], z3.Implies(z3.And(0 <= j, j < U), z3.And(0 <= PERM(j), PERM(j) < U)), patterns=[PERM(j)]))
     idx = Arr((U,), lambda ix: FO(PERM(to_z3(ix[0]))), 'int64', label='unique_index')
